@@ -359,7 +359,8 @@ struct subarray_ptr  // NOLINT(fuchsia-multiple-inheritance) : to allow mixin CR
 
 	template<typename, multi::dimensionality_type, typename, class, bool> friend struct subarray_ptr;
 
-	BOOST_MULTI_HD constexpr subarray_ptr(typename reference::element_ptr base, layout_t<typename reference::rank{} - 1> lyt) : layout_{lyt}, base_{base}, offset_{0} {}
+	template<multi::dimensionality_type DD = D, std::enable_if_t<(DD > 0), int> = 0>  // NOLINT(modernize-use-constraints) for C++20; at rank 0 there is no layout_t<-1> (naming it instantiates layout_t<-2>, layout_t<-3>, ... without end)
+	BOOST_MULTI_HD constexpr subarray_ptr(typename reference::element_ptr base, layout_t<DD - 1> lyt) : layout_{lyt}, base_{base}, offset_{0} {}
 
 	template<bool OtherIsConst, std::enable_if_t< ! OtherIsConst, int> = 0>  // NOLINT(modernize-use-constraints) for C++20
 	BOOST_MULTI_HD constexpr/*mplct*/ subarray_ptr(subarray_ptr<T, D, ElementPtr, Layout, OtherIsConst> const& other)  // NOLINT(google-explicit-constructor,hicpp-explicit-conversions) : propagate implicitness of pointer
